@@ -476,7 +476,18 @@ static bool model_step_inner(Model &m, Op &op) {
         int vi = resolve_var(f, op.var); if (vi < 0) return skip();
         MVar &v = f.vars[vi]; op.var = vi; if (!v.isrec || !v.fill_known || op.a[0] < 0) return skip();
         if (v.no_fill && !v.has_fillv) { op.exp_rc = NC_ENOTFILL; return true; }   // refused, no effect; with a _FillValue attribute the call is permitted on a no-fill variable and uses that value
-        long long rec = op.a[0]; ensure_records(v, rec + 1);
+        long long rec = op.a[0];
+        if (op.a[1] > 0 && m.nprocs > 1) {
+            // odd ranks name record a0 + a1: without safe mode every rank fills its share of the record it named (those records end up partly filled: contents unspecified),
+            // and the record count becomes one plus the highest record named by any rank, on every rank and in the file
+            if (m.safe_mode) return skip();
+            long long hi = rec + op.a[1]; ensure_records(v, hi + 1);
+            for (long long rr : {rec, hi}) for (long long k = 0; k < v.recelems; k++) { Cell &c = v.cells[(size_t)(rr * v.recelems + k)]; c = Cell(); c.st = CS_UNKNOWN; c.wmask = (uint8_t)((1u << m.nprocs) - 1); }
+            if (hi + 1 > f.numrecs) f.numrecs = hi + 1;
+            sync_numrecs(f); return true;
+        }
+        op.a[1] = 0;
+        ensure_records(v, rec + 1);
         for (long long k = 0; k < v.recelems; k++) { Cell &c = v.cells[(size_t)(rec * v.recelems + k)]; bool racy = c.wmask != 0; c = Cell(); c.st = racy ? CS_UNKNOWN : CS_FILL; c.wmask = (uint8_t)((1u << m.nprocs) - 1); }
         if (rec + 1 > f.numrecs) f.numrecs = rec + 1;
         sync_numrecs(f); return true;
